@@ -199,10 +199,16 @@ def standard_check(pid, reg, tier, seed, args, t0):
         reg = dict(reg); reg["oracles"] = list(reg["oracles"]) + [o_same_as_default]
 
     oracle_fail, corr_fail, drifts = [], [], 0
+    unsupported = 0
     nontriv = 0
     opcount = {}
     for c, io, mo in zip(cases, impl, model):
         if io and io[0] == "NOT-RUN":
+            continue
+        if any(r == "bad-op" for r in io):
+            # the harness has no instantiation for this case (capacity / array length / element kind):
+            # an infrastructure limit, not a statement about the crate
+            unsupported += 1
             continue
         for l in c[1:]:
             k = l.split()[0]
@@ -306,6 +312,7 @@ def standard_check(pid, reg, tier, seed, args, t0):
             traces_validated_against_impl=len(cases) if driver_ok else 0,
             correspondence=dict(cases=len(cases), lines=sum(len(c) for c in cases), oracle_failures=len(oracle_fail),
                                 projection_mismatches=len(corr_fail), physical_only_drift_cases=drifts,
+                                cases_without_harness_instantiation=unsupported,
                                 operations=opcount),
             proof_obligations_broken=lean["broken"], notes=lean["notes"] + extra_notes,
             explanation=reg.get("explanation", ""),
